@@ -99,10 +99,11 @@ End RefractChar.
     r^2 / (2 Rc): the kernel takes its linear branch (a = 0) *)
 Lemma std_distance_paraboloid_axial Rc sg x y z0 :
   Rc <> 0 -> (sg = 1 \/ sg = -1) ->
+  0 <= sg * ((x*x + y*y) / (2*Rc) - z0) ->            (* the mirror lies ahead of the ray (else: no intersection) *)
   k_std_distance XOps (Fin (-1)) (Fin sg) (Fin 0) (Fin 0) (Fin z0) (Fin x) (Fin y) (Fin Rc)
   = Fin (sg * ((x*x + y*y) / (2*Rc) - z0)).
 Proof.
-  intros HR Hsg. rewrite res_unfold. cbv zeta.
+  intros HR Hsg Hahead. rewrite res_unfold. cbv zeta.
   assert (Hs2 : sg*sg = 1) by (destruct Hsg; subst; ring).
   replace (-1 * (sg*sg) + 0*0 + 0*0 + sg*sg) with 0 by (rewrite Hs2; ring).
   unfold Reqb. destruct (Req_EM_T 0 0) as [_|E]; [|exfalso; apply E; reflexivity].
@@ -110,9 +111,12 @@ Proof.
   replace (2 * -1 * sg * z0 + 2*0*x + 2*0*y - 2*sg*Rc + 2*sg*z0) with (- (2*sg*Rc)) by ring.
   destruct (Req_EM_T (- (2*sg*Rc)) 0) as [E|E].
   - exfalso. destruct Hsg; subst; lra.
-  - f_equal. apply Rmult_eq_reg_l with sg; [|destruct Hsg; subst; lra].
-    transitivity ((sg*sg) * ((x*x+y*y)/(2*Rc) - z0)); [|ring].
-    rewrite Hs2. field. split; [assumption|destruct Hsg; subst; lra].
+  - assert (Et : - (-1 * (z0*z0) - 2*Rc*z0 + x*x + y*y + z0*z0) / - (2*sg*Rc) = sg * ((x*x + y*y) / (2*Rc) - z0)).
+    { apply Rmult_eq_reg_l with sg; [|destruct Hsg; subst; lra].
+      transitivity ((sg*sg) * ((x*x+y*y)/(2*Rc) - z0)); [|ring].
+      rewrite Hs2. field. split; [assumption|destruct Hsg; subst; lra]. }
+    rewrite Et. unfold behind. cbn [xltb]. unfold Rltb.
+    destruct (Rlt_dec (sg * ((x*x + y*y) / (2*Rc) - z0)) 0) as [Hn|_]; [lra|reflexivity].
 Qed.
 
 (** a ray leaving the centre of curvature of a sphere (k = 0) towards its vertex side (N Rc < 0) meets it after |Rc|
